@@ -43,6 +43,8 @@ type Prog struct {
 
 	GOARCH string
 	Tests  bool
+
+	memo map[string]any
 }
 
 // Edge is a resolved call edge inside the module.
@@ -65,7 +67,15 @@ func fatalf(format string, args ...any) {
 func goEnv(goarch string) []string {
 	env := os.Environ()
 	out := env[:0:0]
+	const newGo = "/opt/veriftools/go1.26.8/bin"
 	for _, kv := range env {
+		if strings.HasPrefix(kv, "PATH=") {
+			if _, err := os.Stat(newGo + "/go"); err == nil && !strings.HasPrefix(kv, "PATH="+newGo) {
+				kv = "PATH=" + newGo + ":" + strings.TrimPrefix(kv, "PATH=")
+			}
+			out = append(out, kv)
+			continue
+		}
 		if strings.HasPrefix(kv, "GOWORK=") || strings.HasPrefix(kv, "GOFLAGS=") ||
 			strings.HasPrefix(kv, "GOPROXY=") || strings.HasPrefix(kv, "GOSUMDB=") ||
 			strings.HasPrefix(kv, "GOTOOLCHAIN=") || strings.HasPrefix(kv, "GOARCH=") ||
@@ -86,6 +96,11 @@ func goEnv(goarch string) []string {
 
 // Load type-checks ./... in dir and lowers it to SSA.
 func Load(dir string, goarch string, tests bool) *Prog {
+	// go/packages resolves the go command through this process's PATH.
+	const newGo = "/opt/veriftools/go1.26.8/bin"
+	if _, err := os.Stat(newGo + "/go"); err == nil && !strings.HasPrefix(os.Getenv("PATH"), newGo) {
+		os.Setenv("PATH", newGo+":"+os.Getenv("PATH"))
+	}
 	cfg := &packages.Config{
 		Mode:  packages.LoadAllSyntax,
 		Dir:   dir,
@@ -112,7 +127,7 @@ func Load(dir string, goarch string, tests bool) *Prog {
 		}
 		fatalf("load: type errors (the tree must compile): %s", strings.Join(errs, "; "))
 	}
-	p := &Prog{Dir: dir, Pkgs: pkgs, GOARCH: goarch, Tests: tests, ModPkgs: map[*types.Package]*packages.Package{}}
+	p := &Prog{Dir: dir, Pkgs: pkgs, GOARCH: goarch, Tests: tests, ModPkgs: map[*types.Package]*packages.Package{}, memo: map[string]any{}}
 	p.Fset = pkgs[0].Fset
 	prog, _ := ssautil.AllPackages(pkgs, ssa.InstantiateGenerics)
 	prog.Build()
